@@ -457,7 +457,7 @@ func VerifH_c13_queued_exec() {
 	other := vNewClientOn(disp)
 	i := vChoice("cmd", len(vSessionCommands))
 	c := vSessionCommands[i]
-	vAssume(c[0] != "MULTI" && c[0] != "EXEC" && c[0] != "DISCARD" && c[0] != "WATCH")
+	vAssume(c[0] != "MULTI" && c[0] != "EXEC" && c[0] != "DISCARD" && c[0] != "WATCH" && c[0][0] != '@')
 	vCmd(cs, "MULTI")
 	q := vCmd(cs, c...)
 	var r respValue
